@@ -420,9 +420,20 @@ func (u *Unit) runRoot() {
 	if u.failed != "" || u.discovery || u.noObls {
 		return
 	}
+	defer func() {
+		if u.spec == nil || u.failed != "" {
+			return
+		}
+		for _, cl := range u.spec.Asserts {
+			if cl.Kind == "assert@return" && !atReturnSeenGlobal(u, cl) {
+				u.failed = fmt.Sprintf("%s:%d: assert @return clause %s names variables that are in scope at no return", cl.File, cl.Line, clauseKey(cl))
+			}
+		}
+	}()
 	canaryLen := len(u.body) // before the postcondition checks (a failed check is assumed afterwards)
 	// returns
 	var retPcs []string
+	atReturnSeen := map[string]bool{}
 	for _, r := range fr.rets {
 		if r.st.dead {
 			continue
@@ -449,6 +460,28 @@ func (u *Unit) runRoot() {
 				return
 			}
 			u.check(fr, r.st, "post", clauseKey(cl), t, "postcondition: "+cl.Text, r.pos, cl.Props)
+		}
+		// assert @return clauses: like postconditions, but they may name the function's local variables (their values at this
+		// return); they are obligations of the body only and are not part of what callers may assume
+		if r.in != nil {
+			lctx := &specCtx{fr: fr, cur: r.st, old: u.entry, env: renv, local: fr.localsAt(r.in)}
+			for _, cl := range u.spec.Asserts {
+				if cl.Kind != "assert@return" {
+					continue
+				}
+				t, err := u.specBool(cl.Expr, lctx)
+				if err != nil {
+					if strings.Contains(err.Error(), "unknown identifier") || strings.Contains(err.Error(), " not found") {
+						// a return before the variables the clause names are declared: the clause does not apply there
+						// (it must apply at one return at least, checked below)
+						continue
+					}
+					u.failed = fmt.Sprintf("%s:%d: %v", cl.File, cl.Line, err)
+					return
+				}
+				atReturnSeen[clauseKey(cl)] = true
+				u.check(fr, r.st, "post", "atreturn."+clauseKey(cl), t, "at every return where its variables are in scope: "+cl.Text, r.pos, cl.Props)
+			}
 		}
 		if u.spec.Flags["noalloc"] {
 			u.check(fr, r.st, "post", "noalloc", eq(u.hget(r.st, "$alloc", sInt), u.allocEntry), "flag noalloc: the function allocates nothing", r.pos, u.spec.Props)
@@ -643,4 +676,14 @@ func (u *Unit) globalInvs(fr *Frame, st *State, spec *FuncSpec, pkgPath string, 
 		}
 	}
 	return nil
+}
+
+// atReturnSeenGlobal: did the assert @return clause produce an obligation at some return?
+func atReturnSeenGlobal(u *Unit, cl *Clause) bool {
+	for _, o := range u.obls {
+		if o.Class == "post" && strings.Contains(o.ID, "/post/atreturn."+clauseKey(cl)+"#") {
+			return true
+		}
+	}
+	return false
 }
